@@ -139,6 +139,14 @@ def _ops():
         ("shutil.rmtree(predir)", lambda sb: shutil.rmtree(j(sb, "predir"))), ("shutil.rmtree(newdir)", lambda sb: shutil.rmtree(j(sb, "newdir"))),
         ("Path(pre.txt).unlink()", lambda sb: Path(j(sb, "pre.txt")).unlink()), ("Path(new.txt).unlink()", lambda sb: Path(j(sb, "new.txt")).unlink()),
         ("Path(newdir).rmdir()", lambda sb: Path(j(sb, "newdir")).rmdir()),
+        # multi-step sequences as one operation: a created file whose directory is renamed afterwards (its recorded path is
+        # stale at clean-up time), several created paths at different depths
+        ("mkdir(scratch); write scratch/part; rename(scratch, run1); write result.txt",
+         lambda sb: (os.mkdir(j(sb, "scratch")), w("scratch/part.bin", "w")(sb), os.rename(j(sb, "scratch"), j(sb, "run1")), w("result.txt", "w")(sb))),
+        ("makedirs(out/deep); write out/deep/log.txt; remove it; write out/top.txt",
+         lambda sb: (os.makedirs(j(sb, "out", "deep")), w("out/deep/log.txt", "w")(sb), os.remove(j(sb, "out", "deep", "log.txt")), w("out/top.txt", "w")(sb))),
+        ("write a.tmp; rename(a.tmp, b.tmp); write c.tmp; replace(c.tmp, b.tmp)",
+         lambda sb: (w("a.tmp", "w")(sb), os.rename(j(sb, "a.tmp"), j(sb, "b.tmp")), w("c.tmp", "w")(sb), os.replace(j(sb, "c.tmp"), j(sb, "b.tmp")))),
         # pre-existing paths whose names merely start like a path the code creates (newdir, new.txt): siblings, not children
         ("open(newdir.bak,'a')", w("newdir.bak", "a")), ("open(new.txt.orig,'w')", w("new.txt.orig", "w")),
         ("shutil.copyfile(pre.txt,newdirx/keep.txt)", lambda sb: shutil.copyfile(j(sb, "pre.txt"), j(sb, "newdirx", "keep.txt"))),
